@@ -37,6 +37,15 @@ def sum1(E, arr, node=None):
     if key in cache:
         return cache[key]
     fs = arr.snapshot()
+    if isinstance(arr.shape[0], int):
+        # concrete length (finite-scope pass, differential self-test): the sum is computed, not axiomatised
+        tot = z3.RealVal(0)
+        for j in range(arr.shape[0]):
+            v = fs.get(j)
+            v = z3.If(v, z3.RealVal(1), z3.RealVal(0)) if z3.is_bool(v) else (z3.ToReal(v) if z3.is_int(v) else v)
+            tot = tot + v
+        cache[key] = z3.simplify(tot)
+        return cache[key]
     n = z(arr.shape[0])
     i = z3.Int(fresh_name("sx"))
     body = fs.get(i)
